@@ -336,7 +336,7 @@ Lemma guard_cyc_ok p s' s x : In (Ok x) (guard_cyc p s' s) -> x = s'.
 Proof.
   unfold guard_cyc. destruct (value (hp s') p).
   - intros [E|[]]. inversion E. reflexivity.
-  - intros [E|[E|[]]]; [discriminate E|inversion E; reflexivity].
+  - intros [E|[]]. discriminate E.
 Qed.
 
 Lemma fail_w_not_ok d s x : In (Ok x) (fail_w d s) -> False.
@@ -949,9 +949,8 @@ Theorem frame_append st nxt st' :
   stk st' = stk st /\ same_io st st' /\
   exists t p, top_addr st = Some t /\ prev_addr st = Some p /\
     ((exists l, prev_node st = Some (NArr l) /\ hp st' = upd (hp st) p (NArr (l ++ [t]))) \/
-     (exists m o o', prev_node st = Some (NObj m) /\ top_node st = Some (NObj o) /\
-                     (o' = o \/ o' = not_self p o) /\
-                     hp st' = upd (hp st) p (NObj (add_missing m o')))).
+     (exists m o, prev_node st = Some (NObj m) /\ top_node st = Some (NObj o) /\
+                   hp st' = upd (hp st) p (NObj (add_missing m o)))).
 Proof.
   intro H. apply step_ok_plain in H; [|reflexivity]. cbn [step_plain] in H.
   change (top_addr (set_inv false st)) with (top_addr st) in H.
@@ -960,8 +959,7 @@ Proof.
   change (top_node (set_inv false st)) with (top_node st) in H.
   crack H; repeat split; exists a, a0; repeat split;
     try (left; eexists; split; reflexivity);
-    try (right; eexists; eexists; eexists; split; [reflexivity|split; [reflexivity|split; [left; reflexivity|reflexivity]]]);
-    try (right; eexists; eexists; eexists; split; [reflexivity|split; [reflexivity|split; [right; reflexivity|reflexivity]]]).
+    try (right; eexists; eexists; split; [reflexivity|split; reflexivity]).
 Qed.
 
 (* -o: the serialization of TOP's value goes to stdout / the file; nothing else changes *)
